@@ -122,8 +122,9 @@ def build_dump_and_hdr(run, prop, E):
         for p, ctx, out in run_paths(E, setup, lambda E, ctx: E.call(f, [ctx["self"], ctx["msg"]])):
             tag = {"what": "dump", "cls": cls, "mod": getattr(mod, "name", None)}
             if cls == "other":
-                goal = z3.BoolVal(out[0] == "raise" and issubclass(out[1].cls, ValueError))
-                run.add(Obligation(prop, qualname(f), "ValueError_for_non_messages", p.pc, goal, kind="post", case=case, where=where(f), tag=tag))
+                # outside the statement's domain (only TRXD messages are stored): the object must be refused, by whatever exception
+                goal = z3.BoolVal(out[0] == "raise" and issubclass(out[1].cls, Exception))
+                run.add(Obligation(prop, qualname(f), "non_messages_are_refused", p.pc, goal, kind="post", case=case, where=where(f), tag=tag))
                 continue
             v = msgs.view(cls, mod)
             if out[0] == "raise":
